@@ -158,6 +158,7 @@ Definition pop : parser op :=
   | 77 => pret OpMan                                                 (* M *)
   | 65 => (a <~ pattach ;; pret (OpAttach a))                        (* A *)
   | 66 => pret OpObserve                                             (* B *)
+  | 68 => (path <~ ppath ;; h <~ pbool ;; pret (OpSetHidden path h))  (* D *)
   | _ => (n <~ pN ;; pret (OpWriteIni n))                            (* W *)
   end.
 
